@@ -478,6 +478,11 @@ class Interp:
 
     def binop(self, op, a, b, node=None):
         a, b = _num(a), _num(b)
+        hook = getattr(self, "binop_hook", None)
+        if hook is not None:
+            r = hook(op, a, b, node)
+            if r is not NotImplemented:
+                return r
         f = _BINOPS.get(op)
         if f is None:
             raise Unsupported(f"operator {op.__name__}")
@@ -813,6 +818,11 @@ class Interp:
         return self.subscript(obj, key, e)
 
     def subscript(self, obj, key, node=None):
+        hook = getattr(self, "subscript_hook", None)
+        if hook is not None:
+            r = hook(obj, key, node)
+            if r is not NotImplemented:
+                return r
         if isinstance(obj, T):
             if isinstance(key, list):
                 key = tuple(key)
@@ -964,6 +974,11 @@ class Interp:
         v = _num(self.eval(e.operand, env, mod))
         if isinstance(e.op, ast.Not):
             return not self.truth(v, e.operand)
+        hook = getattr(self, "unop_hook", None)
+        if hook is not None:
+            r = hook(type(e.op), v, e)
+            if r is not NotImplemented:
+                return r
         if self.obj_class(v) is not None:
             name = {ast.USub: "__neg__", ast.UAdd: "__pos__", ast.Invert: "__invert__"}[type(e.op)]
             m, _ = self.find_method(self.obj_class(v), name)
